@@ -149,9 +149,6 @@ func genTask(rng *lib.Rng, idx int, kind string) taskSpec {
 			p := peer(i, lib.Pick(rng, append([]string{mServe, mServe, mSlow, mWrongH}, failModes...)))
 			p.WrongBy = lib.Pick(rng, []int64{1, -1, 7})
 			p.DelayMs = lib.Pick(rng, []int{0, 0, 15, 60, 200})
-			if rng.Chance(30) {
-				p.Adv = ts.Start + int64(rng.Intn(int(ts.End-ts.Start+1)))
-			}
 			for h := ts.Start; h <= ts.End; h++ {
 				if rng.Chance(25) {
 					p.Except[h] = lib.Pick(rng, append([]string{mServe, mWrongH}, failModes...))
@@ -159,8 +156,6 @@ func genTask(rng *lib.Rng, idx int, kind string) taskSpec {
 			}
 			ts.Peers = append(ts.Peers, p)
 		}
-		// at least one peer advertises the whole range (no 20 s wait for an unadvertised height)
-		ts.Peers[0].Adv = 1 << 40
 	}
 	for i := range ts.Peers {
 		if len(ts.Peers[i].Except) == 0 {
@@ -279,8 +274,8 @@ func run(c *lib.Ctx) {
 				continue
 			}
 			fs, st := checkTask(ts, to)
-			if !to.Returned && len(fs) == 0 {
-				c.Inconclusive("task %d did not return within %d ms and no downloader goroutine was found blocked", to.Idx, to.BoundMs)
+			if !to.Returned && to.HangFrames == "" {
+				c.Inconclusive("task %d did not return within %d ms but no downloader goroutine stayed blocked in a stream exchange (still retrying)", to.Idx, to.BoundMs)
 			}
 			for _, f := range fs {
 				c.Violation(to.Idx, f.Shape, f.Witness, "task %d (%s): %s", to.Idx, ts.Kind, f.Msg)
